@@ -170,7 +170,7 @@ func init() {
 				"URI round trip over 25 boundary texts (URI metacharacters, %, KEY, non-UTF-8, control bytes, quotes) in user/password/database/properties incl. an embedded struct, both bools, 7 boundary ints; simple-form round trip over 24 texts of the documented alphabet (leading/trailing/multiple spaces, '=' signs); alias override order and unknown-key rejection cases; totality of Parse/ParseSimple/ParseURI on every string over a 12-symbol alphabet (quotes, space, '=', letters, '://', '%', ':', '/', '?', '@') up to length 4 (quick) / 5 (thorough) plus 20000 seeded random strings of 5..12 symbols", 120)
 		},
 		Assumptions: []string{
-			"strings, net/url, reflect, strconv and fmt contracts in /verif/specs/stdlib.spec and the engine's reflect/strings abstraction (assumed); string lengths are at most 2^62",
+			"strings, net/url, reflect, strconv and fmt contracts in /verif/specs/stdlib.spec and the engine's reflect/strings abstraction (assumed); string lengths are at most 2^48 (the address space)",
 			"the round-trip, override-order and unknown-key claims depend on net/url and reflect and are decided only on the bounded domain of the island; other texts are not covered",
 		},
 		Notes: []string{
